@@ -226,10 +226,15 @@ func c14HeldReqs(p gProg, hold []int) []simReq {
 type c14Job struct {
 	gCase
 	Gen *c14Gen `json:"gen,omitempty"`
+	// Fail: a pipeline in which chosen handler calls fail (c14_fail.go); the case is then this and nothing else.
+	Fail *c14fCase `json:"fail,omitempty"`
 }
 
 // input is what a failure carries for replay: the generator where there is one, not the 10^5 requests it stands for.
 func (j c14Job) input() any {
+	if j.Fail != nil {
+		return map[string]any{"fail": j.Fail}
+	}
 	if j.Gen == nil {
 		return j.gCase
 	}
